@@ -18,7 +18,12 @@ FORBIDDEN = re.compile(r"\bsorry\b|\badmit\b|^axiom |native_decide|bv_decide|imp
 # property -> theorems (fully qualified) that are its proof obligations, with the module they live in
 _PT = "XonshVerif.Proofs.Tokenize"
 _PR = "XonshVerif.Proofs.Regex"
+_C02 = "XonshVerif.Properties.C02"
+_INERT = [("XV.Peg.xonsh_alternatives_inert", _C02), ("XV.Peg.second_pass_never_accepts", _C02), ("XV.Peg.dead_never_succeeds", "XonshVerif.Proofs.PegDead")]
 THEOREMS = {
+    "C01": _INERT,
+    "C02": _INERT,
+    "C05": _INERT,
     "C03": [
         ("XV.Tz.tokenize_total", "XonshVerif.Properties.C03"),
         ("XV.Tz.scanLine_no_loopFuel", _PT),
@@ -116,14 +121,17 @@ def _cert_names():
 
 _B = "XonshCerts.Basic"
 _R = "XonshCerts.Regex"
+_D = "XonshCerts.Dead"
+_DEAD = [("XVC.dead_cert", _D), ("XVC.dead_rules_expected", _D), ("XVC.dead_alternatives_expected", _D), ("XVC.shipped_xonsh_alternatives_inert", _D)]
 _RX_PROGRESS = [("XVC.regex_translation_complete", _R), ("XVC.pseudo_branches_progress", _R), ("XVC.pseudo_branch_names", _R), ("XVC.string_patterns_progress", _R), ("XVC.quotes_covered", _R)]
 CERTS = {
     "C08": _RX_PROGRESS,
     "C09": _RX_PROGRESS + [("XVC.longest_operator_first", _R), ("XVC.tabsize_is_8", _R)],
     "C10": _RX_PROGRESS,
     "C14": _RX_PROGRESS,
-    "C01": [("XVC.ir_complete", _B)],
-    "C02": [("XVC.ir_complete", _B), ("XVC.errortoken_unmatched", _B), ("XVC.start_demands_endmarker", _B)],
+    "C01": [("XVC.ir_complete", _B)] + _DEAD,
+    "C02": [("XVC.ir_complete", _B), ("XVC.errortoken_unmatched", _B), ("XVC.start_demands_endmarker", _B)] + _DEAD,
+    "C05": [("XVC.ir_complete", _B)] + _DEAD,
     "C03": [("XVC.ir_complete", _B)] + _RX_PROGRESS + [("XVC.gen_pseudo_progress", _R), ("XVC.shipped_tokenizer_total", _R)],
     "C06": [("XVC.bracket_method_table", _B)],
     "C18": [("XVC.ir_complete", _B)],
@@ -246,6 +254,7 @@ CORR = {
     "C06": [corr_c06],
     "C01": [corr_peg("C01", xonsh=False)],
     "C02": [corr_peg("C02")],
+    "C05": [corr_peg("C05")],
     "C03": [corr_peg("C03"), corr_tok("C03")],
     "C18": [corr_peg("C18")],
     "C08": [corr_tok("C08")],
